@@ -58,6 +58,7 @@ var (
 	reDiameter = regexp.MustCompile(`The depth of the complete state graph search is (\d+)`)
 	reInv      = regexp.MustCompile(`Invariant (\S+) is violated`)
 	reProp     = regexp.MustCompile(`(?:Action|Temporal) propert(?:y|ies) (\S+)? ?(?:was|were) violated`)
+	reSim      = regexp.MustCompile(`The number of states generated: (\d+)`)
 	reAct      = regexp.MustCompile(`^<(\w+) line \d+, col \d+ to line \d+, col \d+ of module (\w+)>: (\d+):(\d+)`)
 )
 
@@ -164,6 +165,10 @@ func (res *Result) parse() {
 		if m := reStates.FindStringSubmatch(ln); m != nil {
 			res.Generated, _ = strconv.ParseInt(m[1], 10, 64)
 			res.Distinct, _ = strconv.ParseInt(m[2], 10, 64)
+		}
+		if m := reSim.FindStringSubmatch(ln); m != nil && res.Generated == 0 {
+			res.Generated, _ = strconv.ParseInt(m[1], 10, 64)
+			res.Distinct = res.Generated
 		}
 		if m := reDiameter.FindStringSubmatch(ln); m != nil {
 			res.Diameter, _ = strconv.Atoi(m[1])
